@@ -25,6 +25,8 @@ from .C36 import _cluster_fold
 
 def run(model, rep, tier):
     rep.explanation = __doc__.strip()
+    from ._common import caches_for
+    caches_for(model, rep, 'C31')
     rep.not_decided = 'that every cluster within the cutoff is generated and no other (a geometric search)'
     rep.rule('cluster-hash-fold', 'hash = commutative fold over the normalised (key, position) pairs __eq__ compares')
     rep.rule('normalised-sites', 'sites are stored relative to the first site, sorted independently of input order, flags preserved')
